@@ -18,7 +18,8 @@ What runs.  `determine_constraints` runs the *real* VM over the puzzle with a tr
   not depend on the VM state, so this is the same sequence of events as the interleaved `while pc < len(script)` loop; a fetch
   failure becomes the `ScriptError` it raises at the point where the loop reaches it (`Tail.scriptError`);
 * the five tweaked opcodes (generated table `Gen.Solve.tweaked`, with the `stack_size` rule of `traceback_f`) are modelled on
-  symbolic stacks exactly; so are the real `OP_DUP`, `OP_DROP`, `OP_HASH160`, `OP_EQUAL`, `OP_EQUALVERIFY` and every push;
+  symbolic stacks exactly; so are the real `OP_DUP`, `OP_DROP`, the hash opcodes, `OP_EQUAL`, `OP_EQUALVERIFY`, `OP_IF`/`OP_NOTIF`/
+  `OP_ELSE`/`OP_ENDIF` and every push;
 * any other opcode is run through the VM model (`VM.runHandler`, generated `lookupList`) **when the whole stack consists of
   constants and the handler does not underflow**; otherwise the run answers `unsupported` (the Python behaviour is then duck
   typing on `Atom` objects: outside the model).  The real `OP_CHECKSIGVERIFY` / `OP_CHECKMULTISIGVERIFY` (not tweaked) and
@@ -139,7 +140,7 @@ inductive Tail
   deriving DecidableEq, Repr
 
 /-- `while self.pc < len(self.script): get_opcode(script, pc, verify_minimal_data=False)`; `fuel = len(script)` suffices
-(`fetchAll_fuel`) -/
+(`C05_constraints_fetch_fuel`) -/
 def fetchAll (script : Bytes) : Nat → Nat → List Instr × Tail
   | 0, pc => ([], if pc < script.length then .unsupported else .done)
   | fuel + 1, pc =>
@@ -242,6 +243,22 @@ def realOp (cfg : StageCfg) (h : VM.Handler) (s : St) : Except Stop St :=
     match s.dyn.pop with
     | (.const b, d) => .ok { s with dyn := d.push (.const (Hash.hash160 b)) }
     | _ => .error (.py .type)                       -- `hash160(Atom)`: TypeError
+  | .stack_SHA256 =>                                -- the other hash opcodes are never tweaked: an atom is a TypeError
+    match s.dyn.pop with
+    | (.const b, d) => .ok { s with dyn := d.push (.const (Hash.sha256 b)) }
+    | _ => .error (.py .type)
+  | .stack_HASH256 =>
+    match s.dyn.pop with
+    | (.const b, d) => .ok { s with dyn := d.push (.const (Hash.sha256 (Hash.sha256 b))) }
+    | _ => .error (.py .type)
+  | .stack_RIPEMD160 =>
+    match s.dyn.pop with
+    | (.const b, d) => .ok { s with dyn := d.push (.const (Hash.ripemd160 b)) }
+    | _ => .error (.py .type)
+  | .stack_SHA1 =>
+    match s.dyn.pop with
+    | (.const b, d) => .ok { s with dyn := d.push (.const (Hash.sha1 b)) }
+    | _ => .error (.py .type)
   | .int_EQUAL =>                                   -- bytes == bytes; anything involving an atom here is a freshly invented one
     let (t1, d) := s.dyn.pop
     let (t2, d) := d.pop
